@@ -53,8 +53,12 @@ class Clock:
 
 def make_model(start=1.0, stop=12.0, dt=1.0, name="srv", variant=0):
     from BPTK_Py import Model
-    from BPTK_Py import sd_functions as sd
     m = Model(starttime=start, stoptime=stop, dt=dt, name=name)
+    return populate_model(m, variant)
+
+
+def populate_model(m, variant=0):
+    from BPTK_Py import sd_functions as sd
     stock, flow, outf = m.stock("stock"), m.flow("flow"), m.biflow("outflow")
     rate, cap = m.constant("rate"), m.constant("cap")
     lk = m.converter("lk")
@@ -203,3 +207,40 @@ class OpenFailpoint:
             self.E.open = self._old
         else:
             del self.E.open
+
+
+FILE_MODEL = """from BPTK_Py import Model
+from vlib import srv
+
+
+class simulation_model(Model):
+    def __init__(self):
+        super().__init__(starttime=1.0, stoptime=12.0, dt=1.0, name="srvfile")
+        srv.populate_model(self)
+"""
+
+
+def write_scenario_files(tag):
+    """File-based variant of bptk_factory(): ./models/<tag>.py + ./scenarios/<tag>.json (loaded by every bptk() started in this cwd).
+    Returns a factory; remove_scenario_files(tag) deletes the files again."""
+    os.makedirs("models", exist_ok=True)
+    os.makedirs("scenarios", exist_ok=True)
+    with open("models/%s.py" % tag, "w") as f:
+        f.write(FILE_MODEL)
+    with open("scenarios/%s.json" % tag, "w") as f:
+        json.dump({MG: {"model": "models/%s" % tag, "base_constants": {"cap": 30.0}, "base_points": {"curve": [[0.0, 1.0], [5.0, 2.0], [20.0, 0.5]]},
+                        "scenarios": {"base": {"constants": {"rate": 0.5}}, "alt": {"constants": {"rate": 0.25}},
+                                      "fine": {"runspecs": {"dt": 0.5}, "constants": {"cap": 25.0, "rate": 0.5}}}}}, f)
+
+    def factory():
+        from BPTK_Py import bptk
+        return bptk()
+    return factory
+
+
+def remove_scenario_files(tag):
+    for f in ("models/%s.py" % tag, "scenarios/%s.json" % tag):
+        try:
+            os.remove(f)
+        except OSError:
+            pass
